@@ -6,7 +6,7 @@
 From Coq Require Import List NArith String.
 From Falco Require Import Gen.StringSites Model.Decor Model.DecorSites Proofs.DecorProofs.
 From Falco Require Import Base.Res Gen.Tokens Model.Lex Model.Pump Proofs.DecorReal.
-From Falco Require Model.ParseBase Model.ParseDecl.
+From Falco Require Model.ParseBase Model.ParseDecl Model.Ast Model.Yield Proofs.ParseDeclYield.
 Import ListNotations.
 
 (* inserting / removing / moving ordinary comments, blanks and line feeds never changes the
@@ -90,6 +90,24 @@ Theorem C09_parse_inert_real :
      ParseDecl.parse_vcl_or_snippet fok (to_ptoks tok_of ms') = ParseDecl.parse_vcl_or_snippet fok (to_ptoks tok_of ms).
 Proof. exact parse_inert_real. Qed.
 
+(* parse-level inertness composed with C02's parse_yield, for EVERY program the parser model accepts: the tree
+   built from the decorated stream is the tree of the stripped stream, and its tokens (every declaration,
+   statement and expression once, in source order) are exactly the significant tokens of the DECORATED
+   stream - no comment, line feed or blank is part of the tree.  [body] = pumped tokens before the final EOF. *)
+Theorem C09_decorated_parse_yield :
+  forall (tok_of : str * str -> ParseBase.token) (fok : ParseBase.str -> bool)
+         (is_ann : str -> bool) e e' ts ts' n n',
+  is_eof e = true -> is_eof e' = true ->
+  no_pragma ts -> no_pragma ts' -> (S (List.length ts) <= n)%nat -> (S (List.length ts') <= n')%nat ->
+  decorate (absS is_ann e ts) (absS is_ann e' ts') ->
+  exists ms ms', pump_all n e ts = OK ms /\ pump_all n' e' ts' = OK ms' /\
+    ParseDecl.parse_vcl fok (body tok_of ms') = ParseDecl.parse_vcl fok (body tok_of ms) /\
+    forall v, ParseDecl.parse_vcl fok (body tok_of ms) = ParseBase.POK v ->
+              ParseDeclYield.no_eof (body tok_of ms) = true ->
+              ParseDecl.parse_vcl fok (body tok_of ms') = ParseBase.POK v /\
+              body tok_of ms' = flat_map Yield.ystmt (Ast.vstmts v).
+Proof. exact decorated_parse_yield. Qed.
+
 (* inserting a real ordinary COMMENT token anywhere before the end of a real stream is a decoration *)
 Theorem C09_real_insert_comment :
   forall (is_ann : str -> bool) e t1 t2 c,
@@ -100,6 +118,7 @@ Proof. exact real_insert_comment. Qed.
 Print Assumptions C09_pump_refines_decor.
 Print Assumptions C09_pump_strip_real.
 Print Assumptions C09_parse_inert_real.
+Print Assumptions C09_decorated_parse_yield.
 Print Assumptions C09_real_insert_comment.
 Print Assumptions C09_pump_strip.
 Print Assumptions C09_annotations_stable.
